@@ -955,8 +955,43 @@ void user_skipper_with_fatal_errors()
   }
 }
 
+// The stream entry points parse "the input" from where the caller's stream STANDS: a stream that was already read from (a
+// header line, an earlier record) - rewinds inside alternatives, optionals and repetitions return to positions of that
+// stream, the outcome is the one the same grammar has on the remaining text.
+void stream_already_read_from()
+{
+  std::string const e = "static/stream-entry-point/stream-already-read-from";
+  if (!vf::entry_enabled(e) || !vf::mine(vf::hash_str(e) + 2))
+    return;
+  vf::set_entry(e);
+  namespace sk = fcppt::parse::skipper;
+  // ("ab" >> "cd") | ("ab" >> "ce") | "x": the second alternative needs a rewind over consumed input
+  auto const grammar = (p::string{"ab"} >> p::string{"cd"}) | (p::string{"ab"} >> p::string{"ce"}) | p::string{"x"};
+  for (char const *header : {"", "h\n", "header line\n", "0123456789 0123456789\n"})
+    for (char const *rest : {"abcd", "abce", "x", "abcf", "ab", ""})
+    {
+      if (!vf::begin_case("header \"%s\" read with getline, then phrase_parse_stream on the rest \"%s\"", header[0] ? "..." : "", rest))
+        continue;
+      vf::note_distinct(vf::hash_mix(vf::hash_str(e), vf::hash_mix(vf::hash_str(header), vf::hash_str(rest))));
+      std::istringstream is(std::string(header) + rest);
+      if (header[0] != 0)
+      {
+        std::string line;
+        std::getline(is, line);
+      }
+      auto const from_stream = p::phrase_parse_stream(grammar, is, sk::epsilon{});
+      auto const reference = p::phrase_parse_string(grammar, std::string(rest), sk::epsilon{});
+      VF_COUNT("static/stream-entry-point/already-read-streams");
+      if (from_stream.has_success() != reference.has_success())
+        vf::violation("static/stream-entry-point/stream-already-read-from/outcome", "mismatch",
+                      std::string("rest \"") + rest + "\" after a header of " + std::to_string(std::string(header).size()) + " characters: the stream entry point " +
+                          (from_stream.has_success() ? "succeeds" : "fails") + ", the same grammar on the rest " + (reference.has_success() ? "succeeds" : "fails"));
+    }
+}
+
 void body()
 {
+  stream_already_read_from();
   as_struct_list_initialisation();
   user_skipper_with_fatal_errors();
   // a fixture is registered once per translation unit (= world) it occurs in: merge by name
